@@ -630,7 +630,6 @@ func canonAccessPath(p *Prog, typ *types.Named, path string) string {
 	return path
 }
 
-
 // c09LockOrder (R9): locks of one object are always taken in the same order. If some call path acquires B
 // while holding A and another acquires A while holding B (at least one of the four acquisitions exclusive),
 // two concurrent requests can each hold one and wait for the other forever (e.g. a completion recording its
